@@ -13,6 +13,7 @@ import (
 	remoteexecution "github.com/bazelbuild/remote-apis/build/bazel/remote/execution/v2"
 	"github.com/buildbarn/bb-remote-execution/pkg/builder"
 	"github.com/buildbarn/bb-remote-execution/pkg/cas"
+	"github.com/buildbarn/bb-remote-execution/pkg/filesystem/access"
 	"github.com/buildbarn/bb-remote-execution/pkg/filesystem/pool"
 	"github.com/buildbarn/bb-remote-execution/pkg/filesystem/virtual"
 	"github.com/buildbarn/bb-storage/pkg/clock"
@@ -87,6 +88,7 @@ type rig struct {
 	root     virtual.PrepopulatedDirectory
 	bd       builder.BuildDirectory
 	mask     virtual.AttributesMask
+	monitor  *access.BloomFilterComputingUnreadDirectoryMonitor
 }
 
 func newRig(opts map[string]string, seed uint64) (*rig, error) {
@@ -295,7 +297,7 @@ func decodeComps(ts []string) ([]string, bool) {
 // result. Panics are caught by the caller.
 func (r *rig) exec(op string, args []string) string {
 	switch op {
-	case "merge":
+	case "merge", "mmerge":
 		h, s, ok := untokDig(args[0])
 		if !ok {
 			return "bad-op"
@@ -304,7 +306,49 @@ func (r *rig) exec(op string, args []string) string {
 		if err != nil {
 			return "bad-op"
 		}
+		if op == "mmerge" { // with the real Bloom filter computing access monitor
+			r.monitor = access.NewBloomFilterComputingUnreadDirectoryMonitor()
+			return errName(r.bd.MergeDirectoryContents(r.ctx, r.logger, d, r.monitor))
+		}
 		return errName(r.bd.MergeDirectoryContents(r.ctx, r.logger, d, nil))
+	case "rename", "link":
+		p1, x1, p2, x2, ok := splitTwoPaths(args)
+		if !ok {
+			return "bad-op"
+		}
+		n1, ok1 := path.NewComponent(x1)
+		n2, ok2 := path.NewComponent(x2)
+		if !ok1 || !ok2 {
+			return "bad-name"
+		}
+		d1, st := r.walkTo(p1)
+		if st != "" {
+			return st
+		}
+		if op == "link" {
+			var a virtual.Attributes
+			child, s := d1.VirtualLookup(r.ctx, n1, r.mask, &a)
+			if s != virtual.StatusOK {
+				return statusName(s)
+			}
+			dir, leaf := child.GetPair()
+			if dir != nil {
+				return "EISDIR"
+			}
+			d2, st := r.walkTo(p2)
+			if st != "" {
+				return st
+			}
+			var out virtual.Attributes
+			_, s = d2.VirtualLink(r.ctx, n2, leaf, r.mask, &out)
+			return statusName(s)
+		}
+		d2, st := r.walkTo(p2)
+		if st != "" {
+			return st
+		}
+		_, _, s := d1.VirtualRename(r.ctx, n1, d2, n2)
+		return statusName(s)
 	case "readdir":
 		cs, ok := decodeComps(args)
 		if !ok {
@@ -356,6 +400,30 @@ func (r *rig) exec(op string, args []string) string {
 			return r.kindOfLeaf(leaf, &a)
 		}
 		return "dir"
+	case "digests": // ApplyGetContainingDigests on the node as it is (internal interface)
+		child, s := d.VirtualLookup(r.ctx, name, r.mask, &a)
+		if s != virtual.StatusOK {
+			return statusName(s)
+		}
+		p := virtual.ApplyGetContainingDigests{Context: r.ctx}
+		if !child.GetNode().VirtualApply(&p) {
+			return "unhandled"
+		}
+		if p.Err != nil {
+			return errName(p.Err)
+		}
+		items := p.ContainingDigests.Items()
+		parts := make([]string, len(items))
+		sort.Slice(items, func(i, j int) bool {
+			if items[i].GetHashString() != items[j].GetHashString() {
+				return items[i].GetHashString() < items[j].GetHashString()
+			}
+			return items[i].GetSizeBytes() < items[j].GetSizeBytes()
+		})
+		for i, it := range items {
+			parts[i] = fmt.Sprintf("%s:%d", it.GetHashString(), it.GetSizeBytes())
+		}
+		return "{" + strings.Join(parts, ",") + "}"
 	case "remove":
 		_, s := d.VirtualRemove(r.ctx, name, true, true)
 		return statusName(s)
